@@ -1,6 +1,6 @@
 import OdxVerif.Proofs.CompBits2Leaf
 /-! Bit-exactness for the round-6 constructors (task W17), part 3: `Desc2` — the syntactic mirror of `Described2`
-    (`Proofs/CompExtDescribed.lean`; plus MATCHING-REQUEST-PARAM, admitted at the top level only: `DescribedTop`).
+    (`Proofs/CompExtDescribed.lean`; plus MATCHING-REQUEST-PARAM, allowed at the top level only: `DescribedTop`).
     By structural recursion: the component with its `mid` flag (`Desc2.mc`), the well-formedness conditions (`Desc2.wf`,
     `Desc2.wfTop`; `Desc2.described : d.wf → Described2 d.mc.c d.mc.mid`), the layout (`Desc2.lay`) with the new derived
     objects — `terminator`, `lengthPrefix`, `echo`, `marker`, `sizePadding` — and `Desc2.foot`: the second footprint law holds
